@@ -234,6 +234,7 @@ pub fn run(run: &Run) {
     for f in fmts::all() {
         let mut terms = u::u_term(&f, tier);
         terms.extend(u::huge_terms(4097).into_iter().filter(|r| r.size() > 1000 && !(r.tag == Tag::Product && r.kids.len() == 600) || r.name.len() > 1000 || r.kids.iter().any(|k| k.name.len() > 1000))); // the part u_term leaves out
+        terms.extend(u::cp_name_terms(&f, tier)); // one name per identifier code point
         let mut vals: Vec<V> = terms.into_iter().map(V::term).collect();
         vals.extend(u::u_sent(&f));
         if f.name == "han" {
